@@ -5,6 +5,7 @@ from ..model import AnalysisError, body_nodes
 from ..dataflow import defs_reaching
 from ..facts import facts_at
 from .shared import yields_of
+from ..pattern import pmatch, pstmt, text, find
 
 EXPLANATION = (
     "Structural necessary conditions of the ListOfDicts joins and aggregate decided from source: (ORD-4) the key->item lookup "
@@ -32,19 +33,26 @@ def check(ctx):
     recs = {}
     for name in ("inner_join", "left_join"):
         fn = repo.fn(f"{LOD}.{name}")
+        OTH = fn.params[1]
+        ex2 = [n for n in body_nodes(fn.node) if isinstance(n, ast.Assign) and isinstance(n.targets[0], ast.Name)
+               and isinstance(n.value, ast.Call) and repo.dotted(fn, n.value.func) == "operator.itemgetter"]
+        by_assign = [n for n in body_nodes(fn.node) if isinstance(n, ast.Assign) and isinstance(n.targets[0], ast.Tuple)
+                     and isinstance(n.value, ast.Call) and isinstance(n.value.func, ast.Attribute) and n.value.func.attr == "_split_join_by"]
+        BY1, BY2 = (norm(e) for e in by_assign[0].targets[0].elts) if by_assign else ("by1", "by2")
+        EX1 = next((norm(n.targets[0]) for n in ex2 if norm(n.value.args[0]) == f"*{BY1}"), "extract1")
+        EX2 = next((norm(n.targets[0]) for n in ex2 if norm(n.value.args[0]) == f"*{BY2}"), "extract2")
         dcs = [n for n in ast.walk(fn.node) if isinstance(n, ast.DictComp)
-               and any(norm(g.iter) in ("other", "reversed(other)") or "other" in norm(g.iter) for g in n.generators)
-               and "extract" in norm(n.key)]
+               and any(OTH in {x.id for x in ast.walk(g.iter) if isinstance(x, ast.Name)} for g in n.generators)]
         for d in dcs:
             n_lookup += 1
             it = d.generators[0].iter
-            ok = isinstance(it, ast.Call) and isinstance(it.func, ast.Name) and it.func.id == "reversed" and norm(it.args[0]) == "other"
+            ok = isinstance(it, ast.Call) and isinstance(it.func, ast.Name) and it.func.id == "reversed" and norm(it.args[0]) == OTH
             ok = ok or norm(it).endswith("[::-1]")
             ctx.ob("ORD-4", fn, norm(d), d, ok,
                    "later items are overwritten by earlier ones: the first right item with a key is the one found" if ok else
                    f"lookup dict iterates {norm(it)}: with duplicate right keys the LAST item wins instead of the first",
                    clause="merging in the non-key entries of the first right item with equal key values")
-            ok = "extract2" in norm(d.key) and norm(d.value) == norm(d.generators[0].target)
+            ok = norm(d.key) == f"{EX2}({norm(d.generators[0].target)})" and norm(d.value) == norm(d.generators[0].target)
             ctx.ob("ORD-4", fn, f"key {norm(d.key)} -> {norm(d.value)}", d, ok,
                    "right items are keyed by the right-hand key names" if ok else "lookup is not keyed by the right-hand key extraction",
                    nontrivial=False)
@@ -55,27 +63,30 @@ def check(ctx):
         rec = {"strip": [norm(i) for s in strip for i in s.value.generators[0].ifs],
                "update_target": [norm(c.func.value) for c in ups], "update_arg": [norm(c.args[0]) for c in ups if c.args]}
         recs[name] = rec
-        ok = rec["strip"] == ["k not in by2"] or any("not in by2" in t for t in rec["strip"])
+        ok = any(t.endswith(f" not in {BY2}") for t in rec["strip"])
         ctx.ob("SIB-13", fn, f"merged entries filtered by {rec['strip']}", strip[0] if strip else fn.node, ok,
                "the right-hand key names are not merged into the left item" if ok else
                "entries under the right-hand key names are merged too (renamed keys leak into the result)",
                clause="merging in the non-key entries")
-        ok = rec["update_target"] == ["item"] and bool(strip) and rec["update_arg"] == [norm(strip[0].targets[0])]
+        lp = [n for n in ast.walk(fn.node) if isinstance(n, ast.For) and norm(n.iter) == fn.params[0]]
+        ITEM = norm(lp[0].target) if lp else "item"
+        LOOK = norm(fn.module.parent.get(dcs[0]).targets[0]) if dcs and isinstance(fn.module.parent.get(dcs[0]), ast.Assign) else "other_by_id"
+        ok = rec["update_target"] == [ITEM] and bool(strip) and rec["update_arg"] == [norm(strip[0].targets[0])]
         ctx.ob("SIB-13", fn, f"{rec['update_target']}.update({rec['update_arg']})", ups[0] if ups else fn.node, ok,
                "only the left item is updated, with the freshly built dict" if ok else
                "the update does not go from the fresh merged dict into the left item", clause="left items keep their place; right items untouched")
         ys = yields_of(fn)
         if name == "inner_join":
-            ok = bool(ys) and all(any(k == "T" and " in other_by_id" in t for k, t in facts_at(fn, y)) for y in ys)
+            ok = bool(ys) and all(any(k == "T" and t.endswith(f" in {LOOK}") for k, t in facts_at(fn, y)) for y in ys)
             ctx.ob("SIB-13", fn, "yield only matched items", ys[0] if ys else fn.node, ok,
                    "inner_join yields an item only when its key is in the lookup" if ok else "inner_join yields unmatched items",
                    clause="inner_join returns the merged matched items")
         else:
-            ok = len(ys) == 1 and not any(k in ("T", "F") and "other_by_id" in t for k, t in facts_at(fn, ys[0]))
+            ok = len(ys) == 1 and not any(k in ("T", "F") and LOOK in t for k, t in facts_at(fn, ys[0]))
             ctx.ob("SIB-13", fn, "yield every item once", ys[0] if ys else fn.node, ok,
                    "left_join yields every left item unconditionally" if ok else "left_join drops or duplicates left items",
                    clause="left_join keeps every left item in order")
-            gets = [c for f, c in calls_in(fn) if isinstance(c.func, ast.Attribute) and c.func.attr == "get" and "other_by_id" in norm(c.func.value)]
+            gets = [c for f, c in calls_in(fn) if isinstance(c.func, ast.Attribute) and c.func.attr == "get" and norm(c.func.value) == LOOK]
             ok = bool(gets) and len(gets[0].args) == 2 and norm(gets[0].args[1]) in ("{}", "dict()")
             ctx.ob("SIB-13", fn, norm(gets[0]) if gets else "lookup default", gets[0] if gets else fn.node, ok,
                    "no match adds nothing" if ok else "unmatched left items do not default to an empty merge", nontrivial=False,
@@ -95,86 +106,132 @@ def check(ctx):
     semi, anti = repo.fn(f"{LOD}.semi_join"), repo.fn(f"{LOD}.anti_join")
     rs = {}
     for fn in (semi, anti):
-        ids = [n for n in body_nodes(fn.node) if isinstance(n, ast.Assign) and norm(n.targets[0]) == "other_ids"]
+        OTH = fn.params[1]
+        ids = [n for n in body_nodes(fn.node) if isinstance(n, ast.Assign) and isinstance(n.targets[0], ast.Name)
+               and pmatch(f"set(map(_E, {OTH}))", n.value) is not None]
+        idn = norm(ids[0].targets[0]) if ids else None
+        ex = norm(pmatch(f"set(map(_E, {OTH}))", ids[0].value)["_E"]) if ids else None
+        # which by-list feeds that extractor?
+        exdef = [n for n in body_nodes(fn.node) if isinstance(n, ast.Assign) and ex and norm(n.targets[0]) == ex]
+        by_assign = [n for n in body_nodes(fn.node) if isinstance(n, ast.Assign) and isinstance(n.targets[0], ast.Tuple)
+                     and isinstance(n.value, ast.Call) and isinstance(n.value.func, ast.Attribute) and n.value.func.attr == "_split_join_by"]
+        side = None
+        if exdef and by_assign:
+            arg = norm(exdef[0].value.args[0]) if isinstance(exdef[0].value, ast.Call) and exdef[0].value.args else ""
+            names = [norm(e) for e in by_assign[0].targets[0].elts]
+            side = "right" if arg == f"*{names[1]}" else ("left" if arg == f"*{names[0]}" else None)
         ys = yields_of(fn)
         test = None
         for y in ys:
             for k, t in facts_at(fn, y):
-                if "other_ids" in t:
-                    sense = ("in" if (" not in " not in t) == (k == "T") else "not in")
-                    test = (sense, t.replace(" not in ", " in "))
-        rs[fn.name] = (norm(ids[0].value) if ids else None, test)
-    ok = rs["semi_join"][0] == rs["anti_join"][0] and rs["semi_join"][0] is not None and "extract2" in rs["semi_join"][0] \
-        and rs["semi_join"][1] and rs["anti_join"][1] and rs["semi_join"][1][0] == "in" and rs["anti_join"][1][0] == "not in" \
-        and rs["semi_join"][1][1] == rs["anti_join"][1][1]
+                if idn and t.endswith(f" in {idn}"):
+                    neg = " not in " in t
+                    sense = "in" if (not neg) == (k == "T") else "not in"
+                    lhs = t.split(" not in " if neg else " in ")[0]
+                    test = (sense, lhs.split("(")[0])
+        rs[fn.name] = (side, test)
+    ok = rs["semi_join"][0] == rs["anti_join"][0] == "right" and rs["semi_join"][1] and rs["anti_join"][1] \
+        and rs["semi_join"][1][0] == "in" and rs["anti_join"][1][0] == "not in"
     ctx.ob("SIB-14", anti, f"semi {rs['semi_join']} / anti {rs['anti_join']}", anti.node, bool(ok),
-           "same id set of the right-hand list, complementary membership tests" if ok else
+           "same id set of the right-hand list (right-hand key names), complementary membership tests" if ok else
            "semi_join and anti_join do not test complementary membership in the same id set: they no longer partition the list",
            clause="semi_join and anti_join return the unmerged matched items and the unmatched items")
     # -------------------------------------------------------------- SIB-15
     fj = repo.fn(f"{LOD}.full_join")
+    P, O, BY = fj.params[0], fj.params[1], fj.vararg
+    stm = sorted((n for n in body_nodes(fj.node) if isinstance(n, ast.stmt)), key=lambda n: n.lineno)
+
+    def first(pattern, env=None):
+        for n in stm:
+            bb = pstmt(pattern, n, dict(env or {}))
+            if bb is not None:
+                return n, bb
+        return None, None
+    _, ba_ = first(f"_A = {P}.deepcopy().modify(_aid_=__)")
+    _, bb_ = first(f"_B = {O}.deepcopy().modify(_bid_=__)")
+    if ba_ is None or bb_ is None:
+        raise AnalysisError("ListOfDicts.full_join: the synthetic ids are no longer attached to deep copies with modify(); re-confirm SIB-15")
+    env = {"_A": ba_["_A"], "_B": bb_["_B"]}
     ljs = [c for f, c in calls_in(fj) if isinstance(c.func, ast.Attribute) and c.func.attr == "left_join"]
     ctx.count("left_join calls in full_join", len(ljs), 2)
+    sab, bab = first(f"_AB = _A.deepcopy().left_join(_B, *{BY})", env)
+    ctx.ob("SIB-15", fj, text(sab) if sab else "ab = a.deepcopy().left_join(b, *by)", sab or fj.node, bab is not None,
+           "forward join runs on a deep copy of the left list (left_join edits items in place; a is needed unchanged for the reverse join), "
+           "with by as given" if bab is not None else
+           "the forward join is not a.deepcopy().left_join(b, *by): without the copy the items of a are edited in place and the reverse "
+           "join merges polluted items", clause="full_join contains every right item at least once")
     for c in ljs:
-        recv = c.func.value
-        base = recv
+        base = c.func.value
         while isinstance(base, ast.Call) and isinstance(base.func, ast.Attribute):
             base = base.func.value
-        first = c.args[0] if c.args else None
-        star = [a for a in c.args if isinstance(a, ast.Starred)]
-        if not star or first is None:
+        if text(base) != text(env["_B"]):
             continue
-        forward = norm(base) == "a" and norm(first) == "b"
-        byexpr = star[0].value
+        star = [a for a in c.args if isinstance(a, ast.Starred)]
         swapped = False
-        if isinstance(byexpr, ast.Name) and byexpr.id != fj.vararg:
-            for d in defs_reaching(fj, byexpr.id, c):
-                if d.value is not None and ("reversed(" in norm(d.value) or "[::-1]" in norm(d.value)) and fj.vararg in norm(d.value):
+        if star and isinstance(star[0].value, ast.Name) and star[0].value.id != BY:
+            for d in defs_reaching(fj, star[0].value.id, c):
+                if d.value is not None and ("reversed(" in norm(d.value) or "[::-1]" in norm(d.value)) and BY in {x.id for x in ast.walk(d.value) if isinstance(x, ast.Name)}:
                     swapped = True
-        if forward:
-            ok = isinstance(byexpr, ast.Name) and byexpr.id == fj.vararg
-            ctx.ob("SIB-15", fj, norm(c), c, ok, "forward join uses by as given" if ok else "forward join does not use by as given",
-                   nontrivial=False)
-        else:
-            ctx.ob("SIB-15", fj, norm(c), c, swapped,
-                   "reverse join receives the by-tuples with the two names swapped" if swapped else
-                   f"{norm(c)}: the operands are swapped (the right-hand list is now the receiver) but the by-tuples are not, "
-                   f"so with (left, right) renamed keys the receiver is asked for the left name -> KeyError / wrong matches",
-                   clause="key tuples incl. renamed (left,right) keys")
+        okr = bool(c.args) and text(c.args[0]) == text(env["_A"])
+        ctx.ob("SIB-15", fj, text(c), c, okr and swapped,
+               "reverse join receives the by-tuples with the two names swapped" if (okr and swapped) else
+               f"{text(c)}: the operands are swapped (the right-hand list is now the receiver) but the by-tuples are not, "
+               f"so with (left, right) renamed keys the receiver is asked for the left name -> KeyError / wrong matches",
+               clause="key tuples incl. renamed (left,right) keys")
     anti_calls = [c for f, c in calls_in(fj) if isinstance(c.func, ast.Attribute) and c.func.attr == "anti_join"]
+    ab_names = {text(bab["_AB"])} if bab is not None else set()
+    # ab may be rebound by fill_missing_keys: ab = ab.fill_missing_keys(...)
     ok = bool(anti_calls) and all(len(c.args) == 2 and isinstance(c.args[1], ast.Constant) and c.args[1].value == "_bid_"
-                                  and norm(c.args[0]) == "ab" for c in anti_calls)
-    ctx.ob("SIB-15", fj, norm(anti_calls[0]) if anti_calls else "b.anti_join(ab, '_bid_')", anti_calls[0] if anti_calls else fj.node, ok,
+                                  and text(c.args[0]) in ab_names and text(c.func.value) == text(env["_B"]) for c in anti_calls)
+    ctx.ob("SIB-15", fj, text(anti_calls[0]) if anti_calls else "b.anti_join(ab, '_bid_')", anti_calls[0] if anti_calls else fj.node, ok,
            "right items still to be added are found by their synthetic id among the joined items" if ok else
            "unused right items are not determined by the synthetic id against the left-join result: right items that share a key "
            "with a used one are lost", clause="full_join contains every right item at least once")
     # ------------------------------------------------------------------ AGG
     ag = repo.fn(f"{LOD}.aggregate")
-    groups = [n for n in body_nodes(ag.node) if isinstance(n, ast.Assign) and norm(n.targets[0]) == "groups"]
-    ok = bool(groups) and "unique(*by)" in norm(groups[0].value) and "deepcopy()" in norm(groups[0].value) and "select(*by)" in norm(groups[0].value)
-    ctx.ob("AGG", ag, norm(groups[0]) if groups else "groups = ...", groups[0] if groups else ag.node, ok,
-           "one group per distinct key combination, on deep copies restricted to the keys" if ok else
-           "groups are not self.unique(*by).deepcopy().select(*by)", clause="one item per distinct combination of group-key values")
-    if groups:
-        t = norm(groups[0].value)
-        ok = t.index("deepcopy()") < t.index("select(") if ("deepcopy()" in t and "select(" in t) else False
-        ctx.ob("AGG", ag, "deepcopy before select", groups[0], ok, "the editor select() runs on copies, not on the receiver's items" if ok else
-               "select() (an in-place editor) runs on the receiver's own items", nontrivial=False)
-    sd = [c for f, c in calls_in(ag) if isinstance(c.func, ast.Attribute) and c.func.attr == "append"
-          and isinstance(c.func.value, ast.Call) and isinstance(c.func.value.func, ast.Attribute) and c.func.value.func.attr == "setdefault"]
-    ok = bool(sd) and any(k == "T" and t == f"iter:{ag.params[0]}" for k, t in facts_at(ag, sd[0]))
-    ctx.ob("AGG", ag, norm(sd[0]) if sd else "bucket fill", sd[0] if sd else ag.node, ok,
-           "every item is appended to its group's bucket in iteration order" if ok else "buckets are not filled from one pass over the receiver",
-           clause="summaries computed over exactly that group's items in their original order")
+    AS = ag.params[0]
+    stm = sorted((n for n in body_nodes(ag.node) if isinstance(n, ast.stmt)), key=lambda n: n.lineno)
+
+    def afirst(pattern, env=None):
+        for n in stm:
+            bb = pstmt(pattern, n, dict(env or {}))
+            if bb is not None:
+                return n, bb
+        return None, None
+    sby, bby = afirst(f"_BY = {AS}._group_keys")
+    if bby is None:
+        raise AnalysisError("ListOfDicts.aggregate: group keys are no longer read from self._group_keys")
+    env = {"_BY": bby["_BY"]}
+    sg, bg = afirst(f"_G = {AS}.unique(*_BY).deepcopy().select(*_BY)", env)
+    ctx.ob("AGG", ag, text(sg) if sg else "groups = self.unique(*by).deepcopy().select(*by)", sg or ag.node, bg is not None,
+           "one group per distinct key combination, on deep copies (select is an in-place editor) restricted to the keys" if bg is not None else
+           "groups are not self.unique(*by).deepcopy().select(*by): either the partition is another one or the editor select() runs on "
+           "the receiver's own items", clause="one item per distinct combination of group-key values")
+    sx, bx = afirst("_EX = operator.itemgetter(*_BY)", env)
+    ok = False
+    if bx is not None:
+        env["_EX"] = bx["_EX"]
+        sd = [c for f, c in calls_in(ag) if pmatch("_D.setdefault(_EX(_I), []).append(_I)", c, env) is not None
+              or (isinstance(c.func, ast.Attribute) and c.func.attr == "append" and isinstance(c.func.value, ast.Call)
+                  and isinstance(c.func.value.func, ast.Attribute) and c.func.value.func.attr == "setdefault")]
+        okb = False
+        for c in sd:
+            item = c.args[0] if c.args else None
+            key = c.func.value.args[0] if c.func.value.args else None
+            keys = [key]
+            if isinstance(key, ast.Name):
+                keys = [d.value for d in defs_reaching(ag, key.id, c) if d.value is not None]
+            if item is not None and keys and all(pmatch("_EX(_I)", k, dict(env, _I=item)) is not None for k in keys) \
+                    and any(k == "T" and t == f"iter:{AS}" for k, t in facts_at(ag, c)):
+                okb = True
+        ctx.ob("AGG", ag, text(sd[0]) if sd else "buckets.setdefault(extract(item), []).append(item)", sd[0] if sd else ag.node, okb,
+               "every item is appended to its group's bucket in iteration order, keyed by the group-key extraction" if okb else
+               "buckets are not filled from one pass over the receiver keyed by the same extraction",
+               clause="summaries computed over exactly that group's items in their original order")
+    else:
+        ctx.ob("AGG", ag, "extract = operator.itemgetter(*by)", ag.node, False, "group-key extraction is not itemgetter(*by)")
     srt = [c for f, c in calls_in(ag) if isinstance(c.func, ast.Attribute) and c.func.attr == "sort"]
-    ok = bool(srt) and "dict.fromkeys(by, 1)" in norm(srt[0])
-    ctx.ob("AGG", ag, norm(srt[0]) if srt else "groups.sort(...)", srt[0] if srt else ag.node, ok,
+    ok = bool(srt) and bg is not None and pmatch("_G.sort(**dict.fromkeys(_BY, 1))", srt[0], dict(env, _G=bg["_G"])) is not None
+    ctx.ob("AGG", ag, text(srt[0]) if srt else "groups.sort(**dict.fromkeys(by, 1))", srt[0] if srt else ag.node, ok,
            "output ordered ascending by the group keys (None last by ListOfDicts.sort)" if ok else
-           "output is not sorted ascending by the same group keys", clause="ordered by those keys with None last")
-    ex = [n for n in body_nodes(ag.node) if isinstance(n, ast.Assign) and norm(n.targets[0]) == "extract"]
-    ok = bool(ex) and "itemgetter(*by)" in norm(ex[0].value)
-    ids = [n for n in body_nodes(ag.node) if isinstance(n, ast.Assign) and norm(n.targets[0]) == "id"]
-    ok = ok and len(ids) >= 2 and all(norm(n.value).startswith("extract(") for n in ids)
-    ctx.ob("AGG", ag, "bucket key and group key use the same extraction", ex[0] if ex else ag.node, ok,
-           "items and groups are matched by the same key extraction" if ok else "bucket ids and group ids are extracted differently",
-           nontrivial=False)
+           "output is not sorted ascending by the same group keys with ListOfDicts.sort", clause="ordered by those keys with None last")
